@@ -15,7 +15,7 @@ Definition exact_arm (t : ty) : bool :=
   | TPrim _ | TData _ => true
   | _ => false
   end.
-(* the one conversion whose result is not of the exact class: int([True]) is True *)
+(* a bool standing where an int is declared (int([True]) used to return True; the converters no longer produce it) *)
 Definition leak (p : prim) (w : pyval) : bool :=
   match p, w with TInt, PBool _ => true | _, _ => false end.
 Definition seq_prim (p : prim) (ell : bool) : bool :=
@@ -79,13 +79,10 @@ Fixpoint typed (t : ty) (w : pyval) {struct t} : bool :=
       end
   end.
 
-Definition is_bool (w : pyval) : bool := match w with PBool _ => true | _ => false end.
-(* the only part of `typed` that does not follow from the first parse: no bool where an int is declared
-   (under a union: the result is not a bool, or is an exact instance of an argument) *)
-Fixpoint ints_exact (t : ty) (w : pyval) {struct t} : bool :=
+(* the only part of `typed` that is not derived from the first parse: the result of an exclusive-or is an exact instance of
+   one of its arguments (true of what the loop returns; its proof is left out).  Trivially true of types without ^ *)
+Fixpoint xor_exact (t : ty) (w : pyval) {struct t} : bool :=
   match t with
-  | TPrim p => negb (leak p w)
-  | TLogic COr args => negb (is_bool w) || existsb (fun a => exact_type a w) args
   | TLogic CXor args => existsb (fun a => exact_type a w) args
   | TRule origin args ell _ _ _ _ =>
       if tuple_origin origin ell && negb (match args with [] => true | _ => false end) then
@@ -94,17 +91,17 @@ Fixpoint ints_exact (t : ty) (w : pyval) {struct t} : bool :=
             (fix tl (ts : list ty) (ys : list pyval) {struct ts} : bool :=
                match ts, ys with
                | [], _ => true
-               | a :: ts', y :: ys' => ints_exact a y && tl ts' ys'
+               | a :: ts', y :: ys' => xor_exact a y && tl ts' ys'
                | _ :: _, [] => true
                end) args xs
         | _ => true
         end
       else
       match args with
-      | [] => match origin with Some ot => ints_exact ot w | None => true end
-      | [a] => match items_of w with Some xs => forallb (ints_exact a) xs | None => true end
+      | [] => match origin with Some ot => xor_exact ot w | None => true end
+      | [a] => match items_of w with Some xs => forallb (xor_exact a) xs | None => true end
       | [kt; vt] => match w with
-                    | PDict kvs => forallb (fun kv => ints_exact kt (fst kv) && ints_exact vt (snd kv)) kvs
+                    | PDict kvs => forallb (fun kv => xor_exact kt (fst kv) && xor_exact vt (snd kv)) kvs
                     | _ => true
                     end
       | _ => true
@@ -121,4 +118,4 @@ Definition is_throw (p : policy) : bool := match p with Throw => true | _ => fal
 Definition throwing_b (o : options) : bool :=
   is_throw (o_invalid_items o) && is_throw (o_invalid_keys o) && is_throw (o_invalid_values o).
 Definition in_fragment (o : options) (t : ty) (w : pyval) : bool :=
-  throwing_b o && stable t && ints_exact t w.
+  throwing_b o && stable t && xor_exact t w.
